@@ -1,6 +1,7 @@
 import GMGModel.Smoother
 import GMGModel.Rhs
 import GMGModel.DirectCode
+import GMGModel.DirectGiveCode
 import Generated.Stencils
 import GMGDriver.OpsDrv
 /-! `gmgdriver smooth|direct|matrix`: smoothers against the sweep equations (C06, C07), the coarse direct solvers and their
@@ -20,6 +21,10 @@ structure St2 where
   matrices : Nat := 0
   codeSlots : Nat := 0          -- stored CSR slots compared with the code-level assembly model (storage order)
   codeSlotsBitEq : Nat := 0
+  giveSlots : Nat := 0          -- give strategy, sequential assembly (threads=1): slots compared with GMGModel/DirectGiveCode.lean
+  giveSlotsBitEq : Nat := 0
+  giveSlotsMT : Nat := 0        -- give strategy, 3-coloured parallel assembly (threads=4): slots compared (column exact, value within the allowance)
+  giveSlotsMTBitEq : Nat := 0   -- statistic only: `+=` may be re-associated
   sample : List String := []
 
 def tol30 : Rat := Hex.twoPowNeg 30
@@ -143,38 +148,55 @@ def directStep (st : St2) (line : String) : IO St2 := do
       stats ← check stats okDistinct fun _ => s!"{tag}: a CSR row of the assembled matrix stores a column twice"
       stats ← check stats okEntries fun _ => s!"{tag}: assembled matrix entry differs from the operator ({firstBad})"
       st := { st with matrices := st.matrices + 1 }
-      -- code-level assembly model (GMGModel/DirectCode.lean with the offset tables regenerated from the header): the take
-      -- strategy's CSR rows slot by slot in storage order
-      if (kv rest "strat") == some "take" then
-        let T : DirectCode.Tables := ⟨Stencils.Gen.DirectTake_stencil_interior, Stencils.Gen.DirectTake_stencil_across_origin,
-          Stencils.Gen.DirectTake_stencil_DB, Stencils.Gen.DirectTake_stencil_next_inner_DB, Stencils.Gen.DirectTake_stencil_next_outer_DB⟩
-        let entsF : List (Nat × Nat × Float) := (mat.splitOn ",").map fun e => match e.splitOn ":" with
-          | [r, c, v] => (toNat! r, toNat! c, (Hex.parseFloat v).getD 0)
-          | _ => (0, 0, 0)
-        match DirectCode.rows T l.op, DirectCode.rows T l.opAbs, DirectCode.rows T l.opF with
-        | some rq, some ra, some rf =>
-          let mut okSlots := true
-          let mut badSlot := ""
-          let mut slots := 0; let mut slotsEq := 0
-          for t in [0:n] do
-            let row := entsF.filter (·.1 == t)
-            let mq := rq.getD t []; let ma := ra.getD t []; let mf := rf.getD t []
-            if row.length != mq.length then
-              okSlots := false
-              if badSlot.isEmpty then badSlot := s!"row {t} stores {row.length} slots, model {mq.length}"
-            else
-              for q in [0:row.length] do
-                let e := row.getD q (0, 0, 0); let me := mq.getD q (0, 0); let s := (ma.getD q (0, ⟨0⟩)).2.v
-                slots := slots + 1
-                if e.2.2.toBits == (mf.getD q (0, 0)).2.toBits then slotsEq := slotsEq + 1
-                let v := floatToRat e.2.2
-                let okv := if s == 0 then v == me.2 else Hex.rabs (v - me.2) ≤ Hex.twoPowNeg 40 * s
-                if e.2.1 != me.1 ∨ !okv then
-                  okSlots := false
-                  if badSlot.isEmpty then badSlot := s!"row {t} slot {q}: implementation column {e.2.1}, model column {me.1}, value {if okv then "agrees" else "differs"}"
-          stats ← check stats okSlots fun _ => s!"{tag}: CSR storage differs from the code-level assembly model ({badSlot})"
+      -- code-level assembly models with the offset tables regenerated from the headers, slot by slot in storage order:
+      -- take: GMGModel/DirectCode.lean (one store per slot); give: GMGModel/DirectGiveCode.lean (scatter, `+=` in the
+      -- sequential node order — threads=1 is compared bit for bit as well, threads=4 within the allowance only)
+      let entsF : List (Nat × Nat × Float) := (mat.splitOn ",").map fun e => match e.splitOn ":" with
+        | [r, c, v] => (toNat! r, toNat! c, (Hex.parseFloat v).getD 0)
+        | _ => (0, 0, 0)
+      let strat := (kv rest "strat").getD ""
+      let models : Option (Option (List (List (Nat × Rat))) × Option (List (List (Nat × AbsQ))) × Option (List (List (Nat × Float)))) :=
+        if strat == "take" then
+          let T : DirectCode.Tables := ⟨Stencils.Gen.DirectTake_stencil_interior, Stencils.Gen.DirectTake_stencil_across_origin,
+            Stencils.Gen.DirectTake_stencil_DB, Stencils.Gen.DirectTake_stencil_next_inner_DB, Stencils.Gen.DirectTake_stencil_next_outer_DB⟩
+          some (DirectCode.rows T l.op, DirectCode.rows T l.opAbs, DirectCode.rows T l.opF)
+        else if strat == "give" then
+          let T : DirectCode.Tables := ⟨Stencils.Gen.DirectGive_stencil_interior, Stencils.Gen.DirectGive_stencil_across_origin,
+            Stencils.Gen.DirectGive_stencil_DB, Stencils.Gen.DirectGive_stencil_next_inner_DB, Stencils.Gen.DirectGive_stencil_next_outer_DB⟩
+          some (DirectGiveCode.rows T l.op l.nc, DirectGiveCode.rows T l.opAbs l.nc, DirectGiveCode.rows T l.opF l.nc)
+        else none
+      match models with
+      | none => pure ()
+      | some (some rq, some ra, some rf) =>
+        let mut okSlots := true
+        let mut badSlot := ""
+        let mut slots := 0; let mut slotsEq := 0
+        for t in [0:n] do
+          let row := entsF.filter (·.1 == t)
+          let mq := rq.getD t []; let ma := ra.getD t []; let mf := rf.getD t []
+          if row.length != mq.length then
+            okSlots := false
+            if badSlot.isEmpty then badSlot := s!"row {t} stores {row.length} slots, model {mq.length}"
+          else
+            for q in [0:row.length] do
+              let e := row.getD q (0, 0, 0); let me := mq.getD q (0, 0); let s := (ma.getD q (0, ⟨0⟩)).2.v
+              slots := slots + 1
+              if e.2.2.toBits == (mf.getD q (0, 0)).2.toBits then slotsEq := slotsEq + 1
+              let v := floatToRat e.2.2
+              let okv := if s == 0 then v == me.2 else Hex.rabs (v - me.2) ≤ Hex.twoPowNeg 40 * s
+              if e.2.1 != me.1 ∨ !okv then
+                okSlots := false
+                if badSlot.isEmpty then badSlot := s!"row {t} slot {q}: implementation column {e.2.1}, model column {me.1}, value {if okv then "agrees" else "differs"}"
+        stats ← check stats okSlots fun _ => s!"{tag}: CSR storage differs from the code-level assembly model ({badSlot})"
+        if strat == "take" then
           st := { st with codeSlots := st.codeSlots + slots, codeSlotsBitEq := st.codeSlotsBitEq + slotsEq }
-        | _, _, _ => stats ← check stats false fun _ => s!"{tag}: the code-level assembly model reports an out-of-bounds store (offset table / row size mismatch)"
+        else if (kv rest "threads") == some "1" then
+          -- the sequential scatter is deterministic: the double-precision model must reproduce every slot bit for bit
+          stats ← check stats (slotsEq == slots) fun _ => s!"{tag}: {slots - slotsEq} of {slots} CSR slots of the sequential give assembly are not bit-identical to the double-precision code-level model"
+          st := { st with giveSlots := st.giveSlots + slots, giveSlotsBitEq := st.giveSlotsBitEq + slotsEq }
+        else
+          st := { st with giveSlotsMT := st.giveSlotsMT + slots, giveSlotsMTBitEq := st.giveSlotsMTBitEq + slotsEq }
+      | some _ => stats ← check stats false fun _ => s!"{tag}: the code-level assembly model reports an out-of-bounds store (offset table / row size mismatch)"
     else
       stats ← check stats true fun _ => ""
     -- both strategies / thread counts return the same solution
@@ -284,7 +306,7 @@ def rhsStep (st : St2) (line : String) : IO St2 := do
 
 def finish2 (kind : String) (st : St2) : IO UInt32 := do
   let s := st.stats
-  IO.println s!"SUMMARY kind={kind} cases={s.cases} checks={s.checks} diffs={s.diffs} rejects={s.rejects} runs={st.runs} matrices={st.matrices} code_level_csr_slots={st.codeSlots} code_level_csr_slots_bit_identical={st.codeSlotsBitEq} exact_ldlt_checks={st.pdChecked} oracle_fails={st.oracleFails} worst_defect_over_S_in_units_of_2^-53={ratToSci st.worst}"
+  IO.println s!"SUMMARY kind={kind} cases={s.cases} checks={s.checks} diffs={s.diffs} rejects={s.rejects} runs={st.runs} matrices={st.matrices} code_level_csr_slots={st.codeSlots} code_level_csr_slots_bit_identical={st.codeSlotsBitEq} give_csr_slots={st.giveSlots} give_csr_slots_bit_identical={st.giveSlotsBitEq} give_mt_csr_slots={st.giveSlotsMT} give_mt_csr_slots_bit_identical={st.giveSlotsMTBitEq} exact_ldlt_checks={st.pdChecked} oracle_fails={st.oracleFails} worst_defect_over_S_in_units_of_2^-53={ratToSci st.worst}"
   for x in st.sample do IO.println s!"SAMPLE {x}"
   return (if s.diffs == 0 ∧ s.rejects == 0 ∧ st.oracleFails == 0 then 0 else 1)
 
